@@ -21,6 +21,29 @@ CLAIMED = {
         note="translators gen/ff.py, gen/topology.py (cross-checked against the real objects every run); expat/SAX (handler view compared with etree view); '$' before a trailing newline not modelled",
         ref="DESIGN.md §4 C01",
     ),
+    "C09": dict(
+        text="Lean theorems kernel-checked over a model REGENERATED from the AST of main.py on every run (which function reads which args.<option>, in which expression context; ordered call skeletons): "
+        "--whitespace is read only as the test of an if in print_pqr; --keep-chain only as an argument of the line formatter; --include-header only by the header builders; --pdb-output / --apbs-input only by their writers; "
+        "--ffout only after the last apply_force_field and charge check; only transform_arguments assigns options; and (from C08) re-spacing changes blanks, never a value. "
+        "Oracle: metamorphic real runs - each formatting option toggled alone against the same base options, compared column by column; --drop-water against the input with waters deleted; --neutraln/--neutralc shift against the plain PARSE run.",
+        note="reads hidden from the AST: check_options' getattr loop over IGNORED_PROPKA_OPTIONS; run_propka hands the namespace to PROPKA (covered only by runs with propka); translator gen/mainflow.py trusted",
+        ref="DESIGN.md §4 C09",
+    ),
+    "C12": dict(
+        text="Lean theorems kernel-checked over the regenerated call skeleton of main.py and the inventory of every write-open in the package: the output PQR path is opened for writing in exactly one place (print_pqr); print_pqr is called once, "
+        "after every argument check, file lookup, parse, set-up and compute stage, and only the optional PDB/APBS writers follow it; non_trivial never sees the output path; the charge guard precedes naming and line generation; checks come first. "
+        "Oracle: fault injection into EVERY stage of that generated skeleton on the real code x {ValueError, RuntimeError} x output path {absent, pre-existing with sentinel content and mtime}; eleven natural failure triggers; "
+        "success side: complete peptides with each residue type forced in turn x six force fields (PEOEPB terminal gaps and the non-raising is_repairable are known findings).",
+        note="the OS is not modelled (a crash inside write() leaves a partial file); success for ALL sequences is checked on the windows run, not proved by a kernel table",
+        ref="DESIGN.md §4 C12",
+    ),
+    "C16": dict(
+        text="Lean theorems: for EVERY electronegativity function, normaliser, damping, non-zero scaling and positive cycle count, and every molecule with symmetric neighbour lists, PEOE-equilibrated charges sum to the sum of formal charges (over Q); "
+        "the neighbour lists the MOL2 reader builds from any bond list are symmetric; radii tables positive (kernel-checked on regenerated tables) and looked up type-then-element, primary-then-secondary; the ligand transfer hits exactly name-matching HETATM-prefix atoms of non-water residues; "
+        "partial 'ligand only' theorem + refutation witness of full strength (name clash with a second hetero group: known finding). Tie: real Mol2Molecule.read/assign_parameters vs the model in Float with regenerated tables (formal charges exact, charges 1e-9, radii exact), real main_driver --ligand vs ligandTransfer.",
+        note="float summation order / pow compared at 1e-9; permutation equivariance checked by the oracle on generated molecules, not proved",
+        ref="DESIGN.md §4 C16",
+    ),
     "C13": dict(
         text="Lean theorems about a model of update_ss_bridges (the nested dictionary loops, numpartners==1 rule): two sulfurs close to each other and to no third one become each other's single partner whatever their position in the residue list and whatever else is in the structure; "
         "a sulfur with nothing in range is untouched (keeps HG, CYS parameters); the outcome of an isolated pair is invariant under every permutation of the residue list; the geometric test is symmetric; the limit regenerated from config.py is 2.5. "
